@@ -19,6 +19,7 @@ ASSUMPTIONS = [
 ]
 WAVES = ['const', 'cos', 'sin', 'rect', 'tri', 'saw']
 N_WAVE = {'quick': 4800, 'thorough': 48000}
+HELD = {}
 SPECIAL_PH = [0.0, math.pi / 2, -math.pi / 2, math.pi, -math.pi, 2 * math.pi, 3 * math.pi / 2, -4 * math.pi, math.pi / 4, 1e-9, -1e-9]
 
 
@@ -78,6 +79,21 @@ def judge(case, ctx, prefix='C08'):
     if sh.kind == 'unknown':
         ctx.count('shape_unknown')
         return
+    # a series object requested EARLIER for another waveform of the same type must still describe that waveform
+    prev = HELD.get(wave)
+    if prev is not None:
+        hs0, sh0, T0, scale0, desc0 = prev
+        for n in (0, 1, 3):
+            X0 = fourier.coefficient(sh0, T0, n)
+            a0, p0 = call(hs0.amplitude, n), call(hs0.phase, n)
+            if raised(a0) or raised(p0):
+                continue
+            got0 = complex(a0 * math.cos(p0)) if n == 0 else a0 * cmath.exp(1j * p0)
+            ctx.count('held_series_rechecked')
+            if abs(got0 - X0) > 1e-9 * scale0:
+                ctx.violation(f'{prefix}/earlier-series-changed/{wave}', f'the series of {desc0} reports A_{n} e^(j phi_{n}) = {got0!r} (true {X0!r}) after a series for another {wave} waveform was requested', {})
+                break
+    HELD[wave] = (hs, sh, T, abs(A) + abs(off), f'{wave}(T={T:.4g}, A={A:.4g}, phase={ph:.4g}, offset={off:.4g})')
     tol = 1e-9 * (abs(A) + abs(off))
     phc = 'special' if ph in SPECIAL_PH else ('multi-turn' if abs(ph) > math.pi else 'principal')
     ctx.evaluated(repr((wave, A > 0, phc, off == 0, off > 0, round(math.log10(T)))), True)
